@@ -128,7 +128,7 @@ structure Dev where
   /-- C15-alt-map-nil (alt, pretty): `reflectMap` turns a nil slice, map or `[]byte` that is a map
   VALUE into `nil` (null); everywhere else a nil container is written as an empty one -/
   mapNilNull : Bool
-  /-- C15-omitempty-nested (oj, sen; since /repo 8169704): `newFinfo` hands the field's `omitEmpty` — set
+  /-- C15-omitempty-nested (oj, sen; /repo 8169704 … 6b93c2a, repaired by 9b6b623): `newFinfo` handed the field's `omitEmpty` — set
   by an `omitempty` TAG as well as by the option — to `getTypeStruct`, which since 8169704 really
   returns the plan built with that flag (before, the lookup found the plain plan the lower-case
   builder had cached first). A struct that is (the target of) a field tagged `omitempty` — directly,
@@ -137,9 +137,11 @@ structure Dev where
   nestedOmit : Bool
   deriving DecidableEq, Repr, Inhabited
 
-/-- the code as it is now (/repo 6d5fecb): leak, tight nil pointer and alt map nil are repaired
-(5f44527, 413ccf5, dda8eb5); 8169704 switched `nestedOmit` on -/
-def Dev.current : Dev := ⟨false, true, true, true, false, false, true⟩
+/-- the code as it is now (/repo 9b6b623): leak, tight nil pointer and alt map nil are repaired
+(5f44527, 413ccf5, dda8eb5), and so is the nested omit that 8169704 had switched on (9b6b623) -/
+def Dev.current : Dev := ⟨false, true, true, true, false, false, false⟩
+/-- the trees 8169704 … 6b93c2a: as now, with the nested-omit regression of 8169704 -/
+def Dev.before9b6b623 : Dev := ⟨false, true, true, true, false, false, true⟩
 /-- the tree the first version of this module was written against (/repo ba8abfd) -/
 def Dev.before : Dev := ⟨true, true, true, true, true, true, false⟩
 def Dev.fixed : Dev := ⟨false, false, false, false, false, false, false⟩
